@@ -219,6 +219,9 @@ func (d *Decoder) readClassDef() (interface{}, error) {
 		return nil, newCodecError("ReadClassDef", err)
 	}
 
+	if count < 0 {
+		return nil, newCodecError("ReadClassDef", "negative field count %d", count)
+	}
 	fields := make([]string, count)
 	for i := 0; i < int(count); i++ {
 		s, err := d.readString(_tagRead)
